@@ -222,19 +222,33 @@ def spectrum_failures(x, st=None):
 
     out = []
     X = value(x)
-    try:
-        u, s_, vh = sr.linalg.svd(x)
-        if st is not None:
-            st.transitions += 1
-        got = np.sort(np.concatenate([np.asarray(v) for v in s_.blocks.values()])) if s_.blocks else np.zeros(0)
-        ref = np.sort(np.linalg.svd(X, compute_uv=False)) if X.size else np.zeros(0)
-        smax = max(1.0, float(ref.max()) if ref.size else 1.0)
-        thr = 1e-8 * smax
-        g, r = got[got > thr], ref[ref > thr]
-        if g.shape != r.shape or not np.allclose(g, r, rtol=1e-8, atol=1e-8 * smax):
-            out.append(("svd/singular-values", f"returned {g} dense {r}"))
-    except Exception as ex:
-        out.append((f"svd/raised-{type(ex).__name__}", str(ex)))
+    import autoray as ar
+
+    # every entry point that returns all singular values: svd, and svd_truncated asked not to truncate
+    # (no cutoff and no bond limit - the signature defaults -, cutoff 0, a bond limit beyond the rank)
+    big = int(max(X.shape)) + 3 if X.ndim == 2 else 8
+    entries = (
+        ("svd", lambda: sr.linalg.svd(x)[1]),
+        ("autoray.svd", lambda: ar.do("linalg.svd", x)[1]),
+        ("svd_truncated(defaults,absorb=None)", lambda: sr.linalg.svd_truncated(x, absorb=None)[1]),
+        ("svd_truncated(cutoff=0,absorb=None)", lambda: sr.linalg.svd_truncated(x, cutoff=0.0, absorb=None)[1]),
+        ("autoray.svd_truncated(cutoff=0,max_bond=big,absorb=None)", lambda: ar.do("svd_truncated", x, cutoff=0.0, max_bond=big, absorb=None)[1]),
+    )
+    ref = np.sort(np.linalg.svd(X, compute_uv=False)) if X.size else np.zeros(0)
+    smax = max(1.0, float(ref.max()) if ref.size else 1.0)
+    thr = 1e-8 * smax
+    r = ref[ref > thr]
+    for name, fn in entries:
+        try:
+            s_ = fn()
+            if st is not None:
+                st.transitions += 1
+            got = np.sort(np.concatenate([np.asarray(v) for v in s_.blocks.values()])) if s_.blocks else np.zeros(0)
+            g = got[got > thr]
+            if g.shape != r.shape or not np.allclose(g, r, rtol=1e-8, atol=1e-8 * smax):
+                out.append((f"{name}/singular-values", f"returned {g} dense {r}"))
+        except Exception as ex:
+            out.append((f"{name}/raised-{type(ex).__name__}", str(ex)))
     # an array whose first stored block is real and whose other blocks are complex (what a + b gives for real a, sparse complex b)
     if len(x.blocks) >= 2 and not any(np.asarray(b).dtype.kind == "c" for b in x.blocks.values()):
         try:
